@@ -13,6 +13,7 @@ RULE = ('every sequence over the item alphabet (None included) up to the length 
         'stream, plain observable); the real operator output is compared with a one-line list definition. '
         'Non-trivial = sequence of length >= 2 whose expected output differs from the input or is shorter/longer; '
         'states = distinct store snapshots taken at every event of the real run.')
+DEEP_PROBES = ('parameters 257 / 300 with sequences of 257..601 items; 300-item sequences for every operator; a 70 000 item sort; tuple items with equal hashes; a key re-created around an empty lifetime')
 ASSUMPTIONS = [
     'items are drawn from a 3-4 value alphabet including None; lengths up to the bound',
     'padding semantics on an empty key and first/last on an empty plain observable are not defined by the property and skipped',
